@@ -150,6 +150,10 @@ def case_s(draw) -> dict[str, Any]:
             # first byte = running number: acks echo request[:5], so a stale duplicate ack can never match a later write
             nw = sum(1 for o in program if o[0] == "write")
             program.append(["write", bytes([0x10 + nw]) + draw(st.one_of(st.binary(max_size=3), st.binary(min_size=4, max_size=11)))])
+            # a caller timeout longer than the acknowledgement time does not change anything: the acknowledgement deadline decides
+            wt = draw(st.sampled_from([None, None, 2.3701, 6.0701]))
+            if wt is not None:
+                program[-1].append(wt)
         elif k == "read":
             program.append(["read", draw(st.sampled_from([0.3701, 1.3701, 0.0701, 3.3701]))])
         else:
